@@ -185,8 +185,12 @@ Proof.
   assert (forall l st, ticks_ok st -> ticks_ok (foldl (fun pr s => run_system pr s o) st l)) as Hf.
   { induction l as [|s l IH]; intros st Hst; cbn; [done|]. apply IH. by apply run_system_ticks_ok. }
   specialize (Hf (p_order st2) st2 H2). set (st3 := foldl _ _ _) in *. clearbody st3.
+  assert (Hbump : forall st, ticks_ok st ->
+            0 < p_tick st + 1 /\ (forall k v, p_last_run st !! k = Some v -> v < p_tick st + 1)).
+  { intros st [Hpos Hlr]. split; [lia|]. intros k v Hv. specialize (Hlr k v Hv). lia. }
   unfold last_schedule. unfold ticks_ok. cbn.
-  destruct (p_panic st3); [exact Hf|]. destruct (flush_ticks st3) as (-> & -> & _). exact Hf.
+  destruct (p_panic st3); [exact (Hbump st3 Hf)|].
+  destruct (flush_ticks st3) as (-> & -> & _). exact (Hbump st3 Hf).
 Qed.
 Theorem frame_keeps_order pr o : p_order (frame pr o) = p_order pr.
 Proof.
